@@ -1,7 +1,7 @@
 (* C09 -- property theorems only: each is closed by [exact] of a lemma proved elsewhere. *)
 From Coq Require Import List Arith ZArith NArith PArith Permutation.
 From Muscle Require Import Cont.HtModel Cont.HtStep Cont.HtIdeal Cont.HtLemmas Cont.HtRepr Cont.HtWalk
-                           Cont.HtTable Cont.HtInv Cont.HtSafe Cont.HtSafeAll Cont.HtRefine Cont.HtPend Cont.HtTravW Cont.HtTravOps Cont.HtTravSem Cont.HtTravThm Cont.HtTravAny Cont.HtTravRefuted Cont.HtSorted Cont.HtSortedThm Cont.HtIdealLaws Cont.HtLaws Gen.Consts.
+                           Cont.HtTable Cont.HtInv Cont.HtSafe Cont.HtSafeAll Cont.HtRefine Cont.HtPend Cont.HtTravW Cont.HtTravOps Cont.HtTravSem Cont.HtTravThm Cont.HtTravAny Cont.HtTravRefuted Cont.HtSorted Cont.HtSortedThm Cont.HtIdealLaws Cont.HtLaws Cont.HtClearModel Cont.HtClear Gen.Consts.
 Import ListNotations.
 
 (* InsertIterationEntry is list insertion: if the links of h form the list l1 ++ l2 and e is an
@@ -219,6 +219,19 @@ Example C09_traversal_relinking_nonvacuous :
               OCopyFrom 0 1 false; OIterAdv 0; OMovePos 0 4%Z 3; OReposition 0 4%Z; OIterAdv 0; OIterAdv 0; OIterAdv 0; OIterAdv 0] in
   sem_okd VKeys 7%N 0 w ops = true /\ shown (run1 VKeys 7%N w ops) 0 = None /\ length (trav VKeys 7%N 0 w ops) = 5.
 Proof. vm_compute. repeat split; reflexivity. Qed.
+
+(* Clear(), literally (HtClearModel.v: detach every registered iterator, then RemoveEntryByIndex(head)
+   until the list is empty, then give up the slot array if asked to) has exactly the effect the model
+   uses for Clear / destruction / EnsureSize(0): same iterator table, same head, tail, count,
+   capacity, fresh counter, auto-sort flag and iterator list, and no node left *)
+Theorem C09_clear_loop : forall dcap h I release l, tinv h l ->
+  let a := clear_literal dcap h I release in
+  let b := clear_tab dcap h I release in
+  snd a = snd b /\ hd (fst a) = hd (fst b) /\ tl (fst a) = tl (fst b) /\ cnt (fst a) = cnt (fst b) /\
+  cap (fst a) = cap (fst b) /\ fresh (fst a) = fresh (fst b) /\ asort (fst a) = asort (fst b) /\
+  ilist (fst a) = ilist (fst b) /\ (forall y, getn (fst a) y = getn (fst b) y).
+Proof. exact clear_literal_spec. Qed.
+Print Assumptions C09_clear_loop.
 
 (* the auto-sorting classes (OrderedKeysHashtable: var = VKeys, OrderedValuesHashtable: var = VVals):
    in every world reachable by operations that keep auto-sort enabled and do not explicitly reorder
